@@ -205,6 +205,11 @@ fn run_case(c: &Case, rep: &mut CaseReport) -> Verdict {
     }
     if !w.compaction_errors.is_empty() {
         rep.label("compaction-failed");
+        // which failure: the message with the generated uids masked
+        for e in &w.compaction_errors {
+            let masked: String = e.split_whitespace().map(|t| if t.len() >= 16 && t.chars().filter(|c| c.is_ascii_alphanumeric()).count() >= 16 && t.chars().any(|c| c.is_ascii_digit()) && t.chars().any(|c| c.is_ascii_uppercase()) { "<uid>" } else { t }).collect::<Vec<_>>().join(" ");
+            rep.label(format!("compaction-failed:{}", masked.chars().take(420).collect::<String>()));
+        }
     }
     if partial_drain {
         rep.label("round:partial-drain");
